@@ -133,6 +133,10 @@ def share(ctx, rep, modname, take, as_rule, floor=None):
             mod.run(ctx, sub)
         except AnalysisError as e:
             sub.infos.append("analysis of %s incomplete: %s" % (modname, e))
+        except Exception as e:      # an internal error while deciding another property must not take this one down
+            import traceback
+            sub.infos.append("analysis of %s incomplete: internal error %s: %s" % (
+                modname, type(e).__name__, traceback.format_exc().strip().splitlines()[-2].strip()[:120]))
     sub = cache[modname]
     n = 0
     for o in list(sub.obs):
